@@ -126,12 +126,67 @@ pub fn observe_inner(c: &Case) -> String {
             for x in p { tok.push_str(&format!(" {}", x)); }
         }
     }
+    let cert = f64_certificate(c);
     format!(
-        "i.build=0|i.ss={}|i.ms={}|i.ap={}|i.inv={}|i.tok={}",
-        p_map(&ss), p_map(&ms), p_map(&ap),
+        "i.build=0|i.f64cert={}|i.ss={}|i.ms={}|i.ap={}|i.inv={}|i.tok={}",
+        cert, p_map(&ss), p_map(&ms), p_map(&ap),
         if inv_s.is_empty() { ".".to_string() } else { inv_s.join(" ") },
         tok
     )
+}
+
+/// The distance certificate in the implementation's own arithmetic, on a copy of the graph whose weights are divided by 10
+/// (sums that are not exact in f64, routes whose lengths differ in the last place). With non-negative weights f64 addition is
+/// monotone, so Dijkstra's invariants hold *exactly* in f64: every returned path, folded left to right with the lightest
+/// parallel edge, has bit for bit the reported distance; the labelling is closed (`dist[v] <= dist[u] + w` for every stored
+/// edge out of a reached node, hence every node an edge leads to is reached); the distance-only search agrees bit for bit.
+/// (Over exact arithmetic this is `C04_certificate_exact`; here it is evaluated over f64 path sums.)
+fn f64_certificate(c: &Case) -> String {
+    if !c.weighted || c.g.edges.iter().any(|e| e.2.map_or(true, |w| w < 0)) { return "1".to_string(); }
+    let g = match c.g.build_divided(10.0) { Ok(g) => g, Err(_) => return "1".to_string() };
+    let directed = g.specs.directed;
+    let mut wmin: std::collections::HashMap<(u32, u32), f64> = std::collections::HashMap::new();
+    for e in g.get_all_edges() {
+        let mut put = |k: (u32, u32)| { let x = wmin.entry(k).or_insert(f64::INFINITY); if e.weight < *x { *x = e.weight; } };
+        put((e.u, e.v));
+        if !directed { put((e.v, e.u)); }
+    }
+    let names: Vec<u32> = g.get_all_node_names().into_iter().copied().collect();
+    let basic = match dijkstra::all_pairs(&g, true, None, None, false, false) { Ok(m) => m, Err(e) => return format!("all_pairs:E{}", err_code(&e.kind)) };
+    for s in &names {
+        let row = match dijkstra::single_source(&g, true, *s, None, None, false, true) { Ok(r) => r, Err(e) => return format!("single_source({}):E{}", s, err_code(&e.kind)) };
+        for (t, info) in &row {
+            if info.paths.is_empty() { return format!("no-path:{}->{}", s, t); }
+            for p in &info.paths {
+                if p.first() != Some(s) || p.last() != Some(t) { return format!("endpoints:{}->{}", s, t); }
+                let mut d = 0.0f64;
+                for w in p.windows(2) {
+                    match wmin.get(&(w[0], w[1])) { Some(x) => d += *x, None => return format!("not-a-walk:{}->{}", s, t) }
+                }
+                if d.to_bits() != info.distance.to_bits() && !(d == 0.0 && info.distance == 0.0) {
+                    return format!("path-sum:{}->{}:{:e}/{:e}", s, t, d, info.distance);
+                }
+            }
+        }
+        for ((u, v), w) in &wmin {
+            if let Some(iu) = row.get(u) {
+                match row.get(v) {
+                    None => return format!("not-closed:{}:{}->{}", s, u, v),
+                    Some(iv) => if iv.distance > iu.distance + *w { return format!("not-closed:{}:{}->{}:{:e}>{:e}", s, u, v, iv.distance, iu.distance + *w); }
+                }
+            }
+        }
+        match basic.get(s) {
+            None => return format!("basic-missing-source:{}", s),
+            Some(b) => {
+                if b.len() != row.len() { return format!("basic-size:{}", s); }
+                for (t, info) in &row {
+                    match b.get(t) { Some(x) if x.distance.to_bits() == info.distance.to_bits() || (x.distance == 0.0 && info.distance == 0.0) => {}, _ => return format!("basic-differs:{}->{}", s, t) }
+                }
+            }
+        }
+    }
+    "1".to_string()
 }
 
 pub fn gen_case(rng: &mut Rng, profile: &str, size: usize) -> Case {
